@@ -24,6 +24,7 @@ from flow import Flow
 from mir import callee_of, op_const, op_int, op_local, op_place, rv_operands
 from paths import must_pass
 from report import Report
+import inline
 
 PID = "C06"
 RUN_STEP = "compiler::clvm::run_step"
@@ -32,6 +33,19 @@ APPLY_OP = "compiler::clvm::apply_op"
 GEN_REFS = "compiler::clvm::generate_argument_refs"
 FLATTEN = "compiler::clvm::flatten_signed_int"
 CHIA_OP = "<chia_dialect::ChiaDialect as dialect::Dialect>::op"
+KEEP = None   # filled below: anchors the rules look for as calls are never inlined
+
+
+def with_helpers(prog, path):
+    """The function with its private helper functions inlined (two levels), anchors excepted, so that extracting a
+    block into a helper or folding one back does not change what the rules see."""
+    f = prog.fn(path)
+    if f is None:
+        return None
+    base = inline.default_pred(prog, f)
+    return inline.inlined(prog, f, pred=lambda g: base(g) and g.path not in KEEP, depth=2)
+
+
 COPYISH = ("::clone", "::borrow", "::deref", "::as_ref", "Rc::<T>::new", "::to_owned", "::into", "::from")
 
 
@@ -176,7 +190,11 @@ def run(tier="quick", replay=None):
     R.facts_info = infos
     R.trusted = ["rustc MIR construction", "clvmr 0.16.2 from the offline registry as the consensus evaluator"]
     R.assumptions = ["partial: value-level agreement (truthiness, conversions, delegated operators' results, errors) is not decided"]
-    f = prog.fn(RUN_STEP)
+    global KEEP
+    KEEP = {RUN_STEP, CHOOSE, APPLY_OP, GEN_REFS, FLATTEN, "compiler::clvm::atom_value", "compiler::clvm::translate_head",
+            "compiler::clvm::eval_args", "compiler::clvm::combine", "compiler::clvm::truthy", "compiler::clvm::convert_to_clvm_rs",
+            "compiler::clvm::convert_from_clvm_rs", "compiler::clvm::run", "compiler::clvm::step_return_value"}
+    f = with_helpers(prog, RUN_STEP)
     if f is None or cprog is None:
         R.viol("R06", "R06|anchor-lost|run_step", "compiler::clvm", "anchor lost: run_step or clvmr facts")
         return R.finalize()
@@ -222,7 +240,7 @@ def run(tier="quick", replay=None):
     # ---------------- R06.path -------------------------------------------------------------------
     cp_sites = [(bb, t) for bb, t in f.calls() if callee_of(t) == CHOOSE]
     R.floor("R06.path", "environment lookups in run_step", len(cp_sites), 1, site)
-    cf = prog.fn(CHOOSE)
+    cf = with_helpers(prog, CHOOSE)
     for bb, t in cp_sites:
         # the numeric path arguments (orig, p) are args 1 and 2
         pl = op_local(t["args"][2])
@@ -263,6 +281,53 @@ def run(tier="quick", replay=None):
                 "run_step descends into choose_path without testing the path for zero: the descent halves p until p == 1, which 0 never "
                 "reaches, so an all-zero path atom (0x00, 0x0000) fails with 'bad path' while the consensus evaluator (traverse_path) "
                 "returns nil for it", fn=RUN_STEP)
+    # path atoms are unsigned: the Integer built from an Atom/QuotedString payload in run_step must not come from a signed
+    # big-integer conversion (the signed value is re-encoded minimally before flatten_signed_int, losing redundant 0xff bytes)
+    SIGNED = ("util::number_from_u8", "from_signed_bytes_be", "from_signed_bytes_le")
+    natom = 0
+    for bb, _, s in f.stmts():
+        rv = s["rv"]
+        if rv["k"] == "agg" and rv.get("variant") == "Integer" and "SExp" in rv.get("adt", "") and len(rv["ops"]) == 2:
+            l = op_local(rv["ops"][1])
+            if l is None:
+                continue
+            src = fl.back_pure([l], stop=lambda x: 0 < x <= f.argc)
+            from_atom = False
+            for _, _, s2 in f.stmts():
+                if fl.node(s2["pl"]) in src:
+                    for o in rv_operands(s2["rv"]):
+                        p = op_place(o)
+                        if p and any(isinstance(e, dict) and e.get("dc") in ("Atom", "QuotedString") for e in p["p"]):
+                            from_atom = True
+            if not from_atom:
+                continue
+            natom += 1
+            signed = sorted({callee_of(t) for x in src for _, t in fl.call_defs.get(x, [])
+                             if any(k in (callee_of(t) or "") for k in SIGNED)})
+            R.check(not signed, "R06.path", "R06.path|atom-bytes-unsigned", "%s:%s" % (f.file, s.get("line", f.line)),
+                    "auto: the path number built from an atom's bytes does not pass through a signed conversion",
+                    "run_step turns a path atom's bytes into a number with %s (signed): redundant sign bytes are lost when the value "
+                    "is re-encoded before flatten_signed_int, so 0xff80 selects path 128 where the consensus evaluator follows 65408" % signed,
+                    fn=RUN_STEP)
+    R.floor("R06.path", "path numbers built from atom bytes in run_step", natom, 1, site)
+    # flatten_signed_int reads the number's ATOM bytes as unsigned: it must obtain those bytes from the encoder that defines
+    # the atom (to_signed_bytes_* / u8_from_number), not re-derive the byte length arithmetically (an unchecked second
+    # encoding: reported even if it happened to be right, see DESIGN 3.11)
+    ff = with_helpers(prog, FLATTEN)
+    if ff is None:
+        R.viol("R06.path", "R06.path|anchor-lost|flatten_signed_int", "compiler::clvm", "anchor lost: flatten_signed_int")
+    else:
+        ffl = Flow(ff)
+        enc = [callee_of(t) for _, t in ff.calls() if any(k in (callee_of(t) or "") for k in ("to_signed_bytes_le", "to_signed_bytes_be", "util::u8_from_number"))]
+        ret_from_enc = any(ffl.derives_from_call(0, lambda c: "to_signed_bytes" in c or c.endswith("u8_from_number")) for _ in [0])
+        arith = sorted({(callee_of(t) or "").rsplit("::", 1)[-1] for _, t in ff.calls()
+                        if any(k in (callee_of(t) or "") for k in ("::bits", "ops::Shl", "ops::Add", "ops::Sub", "ops::Mul", "::pow"))
+                        and "num_bigint" in (callee_of(t) or "")})
+        R.check(bool(enc) and ret_from_enc and not arith, "R06.path", "R06.path|flatten-reads-atom-bytes", "%s:%s" % (ff.file, ff.line),
+                "auto: flatten_signed_int reinterprets the bytes produced by %s" % sorted(set(c.rsplit("::", 1)[-1] for c in enc)),
+                "flatten_signed_int does not reinterpret the number's atom bytes (encoder calls: %s; big-integer arithmetic: %s): the "
+                "unsigned reading of a negative path is re-derived instead of read from the bytes the atom has, which is not checkable "
+                "here and differs from the consensus reading whenever the derived byte length is off" % (enc, arith), fn=FLATTEN)
     if cf is None:
         R.viol("R06.path", "R06.path|anchor-lost|choose_path", "compiler::clvm", "anchor lost: choose_path")
     else:
@@ -349,8 +414,8 @@ def run(tier="quick", replay=None):
     # ---------------- R06.delegate ---------------------------------------------------------------
     delegs = [(bb, t) for bb, t in f.calls() if callee_of(t) == APPLY_OP]
     R.floor("R06.delegate", "delegations to the consensus evaluator in run_step", len(delegs), 1, site)
-    a = prog.fn(APPLY_OP)
-    g = prog.fn(GEN_REFS)
+    a = with_helpers(prog, APPLY_OP)
+    g = with_helpers(prog, GEN_REFS)
     if a is None or g is None:
         R.viol("R06.delegate", "R06.delegate|anchor-lost", "compiler::clvm", "anchor lost: apply_op / generate_argument_refs")
     else:
@@ -392,18 +457,31 @@ def run(tier="quick", replay=None):
                     start, refs_from_args, prog_ok, env_ok), fn=APPLY_OP)
         # generate_argument_refs: element = Integer(start); next = 1 + 2*start
         gfl = Flow(g)
-        mul = [(bb, t) for bb, t in g.calls() if "ops::Mul" in (callee_of(t) or "")]
-        add = [(bb, t) for bb, t in g.calls() if "ops::Add" in (callee_of(t) or "")]
+        # next reference = 2*start + 1, in big-integer arithmetic: Mul by 2 or Shl by 1, then Add / BitOr with one
+        def bigop(t, names):
+            c = callee_of(t) or ""
+            return "num_bigint" in c and any(("ops::" + n) in c for n in names)
+        mul = [(bb, t) for bb, t in g.calls() if bigop(t, ("Mul", "Shl"))]
+        add = [(bb, t) for bb, t in g.calls() if bigop(t, ("Add", "BitOr"))]
         rec = [(bb, t) for bb, t in g.calls() if callee_of(t) == GEN_REFS]
         f_ok = False
+        fixed_width = [s2["rv"]["op"] for _, _, s2 in g.stmts() if s2["rv"]["k"] == "bin" and
+                       s2["rv"]["op"].replace("WithOverflow", "").replace("Unchecked", "") in ("Shl", "Mul", "Add", "BitOr")
+                       and 1 in direct_sources(gfl, s2["pl"]["l"]) | {x for o in (s2["rv"]["a"], s2["rv"]["b"]) if op_local(o) is not None
+                                                                      for x in direct_sources(gfl, op_local(o))}]
         if mul and add and rec:
-            margs = [op_local(x) for x in mul[0][1]["args"]]
-            m2 = any(small_const(gfl, x) == 2 and 1 not in direct_sources(gfl, x) for x in margs if x is not None)
+            mt = mul[0][1]
+            is_shl = "ops::Shl" in (callee_of(mt) or "")
+            margs = [op_local(x) for x in mt["args"]]
+            factor = 1 if is_shl else 2
+            m2 = any((small_const(gfl, x) == factor and 1 not in direct_sources(gfl, x)) for x in margs if x is not None) or \
+                any(op_int(x) == factor for x in mt["args"])
             ms = any(1 in direct_sources(gfl, x) for x in margs if x is not None)
             aargs = [op_local(x) for x in add[0][1]["args"]]
-            a1 = any(gfl.derives_from_call(x, lambda c: c.endswith("bi_one")) and mul[0][1]["dest"]["l"] not in gfl.back_pure([x])
-                     for x in aargs if x is not None)
-            am = any(mul[0][1]["dest"]["l"] in gfl.back_pure([x]) for x in aargs if x is not None)
+            a1 = any((gfl.derives_from_call(x, lambda c: c.endswith("bi_one")) or small_const(gfl, x) == 1)
+                     and mt["dest"]["l"] not in gfl.back_pure([x]) for x in aargs if x is not None) or \
+                any(op_int(x) == 1 for x in add[0][1]["args"])
+            am = any(mt["dest"]["l"] in gfl.back_pure([x]) for x in aargs if x is not None)
             rarg = op_local(rec[0][1]["args"][0])
             rn = rarg is not None and add[0][1]["dest"]["l"] in gfl.back_pure([rarg])
             f_ok = m2 and ms and a1 and am and rn
@@ -417,7 +495,9 @@ def run(tier="quick", replay=None):
         R.check(f_ok and elem_ok, "R06.delegate", "R06.delegate|reference-sequence", "%s:%s" % (g.file, g.line),
                 "auto: generate_argument_refs emits Integer(start) per argument and continues with 1 + 2*start",
                 "generate_argument_refs no longer emits the reference `start` for each argument and continues with 1 + 2*start "
-                "(formula ok=%s, element ok=%s): the n-th evaluated argument would be fetched from the wrong position" % (f_ok, elem_ok), fn=GEN_REFS)
+                "(big-integer formula ok=%s, element ok=%s%s): the n-th evaluated argument would be fetched from the wrong position" % (
+                    f_ok, elem_ok, "; the reference is computed in fixed-width machine arithmetic (%s), which overflows silently from the "
+                    "63rd argument on" % sorted(set(fixed_width)) if fixed_width and not f_ok else ""), fn=GEN_REFS)
         # the result is the reduction's value
         val_ok = False
         for cl in prog.closures_of(APPLY_OP):
